@@ -1,4 +1,5 @@
 import difflib
+import re
 
 import libcst as cst
 
@@ -13,9 +14,19 @@ def create_diff_from_tree(original_tree: cst.Module, new_tree: cst.Module) -> st
     Create a diff between the original and output trees.
     """
     return create_diff(
-        original_tree.code.splitlines(keepends=True),
-        new_tree.code.splitlines(keepends=True),
+        _split_lines(original_tree.code),
+        _split_lines(new_tree.code),
     )
+
+
+def _split_lines(code: str) -> list[str]:
+    """
+    Split code into lines at "\n" only, keeping the line endings.
+
+    `str.splitlines` also breaks lines at form feeds, vertical tabs and unicode
+    line separators, which tools applying a unified diff do not treat as line ends.
+    """
+    return [line for line in re.split(r"(?<=\n)", code) if line]
 
 
 def create_diff_and_linenums(
